@@ -102,8 +102,9 @@ fn gen_sets(prop: &str, tier: &str) -> Vec<ProgSet> {
             let mut ps: Vec<Program> = kinds.iter().flat_map(|k| programs(*k, &alpha, l2)).collect();
             ps.sort_by(|a, b| (a.ops.len(), a.init, &a.ops).cmp(&(b.ops.len(), b.init, &b.ops)));
             // 2 spawned threads, unbounded
+            let cap2 = if thorough { 4 } else { 3 };
             for m in multisets(&ps, 2) {
-                if !thorough && m.iter().map(|p| p.ops.len()).sum::<usize>() > 3 {
+                if m.iter().map(|p| p.ops.len()).sum::<usize>() > cap2 {
                     continue;
                 }
                 sets.push(ProgSet { programs: m, writer: None, main_reads: true, readers_see_only_v0: false, bound: None, expect_facts: vec![] });
@@ -112,14 +113,20 @@ fn gen_sets(prop: &str, tier: &str) -> Vec<ProgSet> {
             let l3 = if thorough { 2 } else { 1 };
             let ps3: Vec<Program> = kinds.iter().flat_map(|k| programs(*k, &alpha, l3)).collect();
             for m in multisets(&ps3, 3) {
+                if thorough && m.iter().map(|p| p.ops.len()).sum::<usize>() > 3 {
+                    continue;
+                }
                 sets.push(ProgSet { programs: m, writer: None, main_reads: true, readers_see_only_v0: false, bound: Some(if thorough { 3 } else { 2 }), expect_facts: vec![] });
             }
             if thorough {
-                let ps4: Vec<Program> = kinds.iter().flat_map(|k| programs(*k, &alpha, 1)).collect();
+                let k4 = [Kind::A, Kind::O, Kind::U2, Kind::T];
+                let ps4: Vec<Program> = k4.iter().flat_map(|k| programs(*k, &[Read, Clone, Drop], 1)).collect();
                 for m in multisets(&ps4, 4) {
                     sets.push(ProgSet { programs: m, writer: None, main_reads: false, readers_see_only_v0: false, bound: Some(2), expect_facts: vec![] });
                 }
             }
+            // simplest first across the groups, so that a wall-clock cap cuts every group proportionally
+            sets.sort_by_key(|s| (s.programs.iter().map(|p| p.ops.len()).sum::<usize>() + s.programs.len(), s.programs.len()));
         }
         "C03" => {
             // one writer polls for uniqueness (<=2 attempts) and mutates; others read and drop
